@@ -361,6 +361,94 @@
         final(self).pub_point.origins == old(self).pub_point.origins,
         final(self).pub_point.router_keys == old(self).pub_point.router_keys,
         final(self).report == old(self).report,
+//@ fn RejectedResourcesBuilder::extend_from_cert
+//@ spec
+    requires
+        // permission: this call may push exactly the rejectable blocks of this certificate
+        forall|x: (bool, IpBlock)| #[trigger] push_allowed(&self.addrs, x) <==> addr_rejectable(cert, x),
+        forall|b: AsBlock| #[trigger] push_allowed(&self.asns, b) <==> as_rejectable(cert, b),
+    ensures
+        // C08: every address block of the rejected CA's certificate other than a
+        // whole-address-family block is recorded, tagged with its family (and, by the
+        // push permission above, nothing else is)
+        forall|x: (bool, IpBlock)| addr_rejectable(cert, x) ==> #[trigger] pushed(&self.addrs, x),
+        forall|b: AsBlock| as_rejectable(cert, b) ==> #[trigger] pushed(&self.asns, b),
+//@ closure 1
+|block: &IpBlock| -> (r: bool) ensures r == !block.is_slash_zero_spec()
+//@ closure 2
+|block: &IpBlock| -> (r: bool) ensures r == !block.is_slash_zero_spec()
+//@ closure 3
+|block: &AsBlock| -> (r: bool) ensures r == !block.is_whole_range_spec()
+//@ loopvar 1 it
+//@ loop 1
+            invariant
+                it.iter.obeys_prophetic_iter_laws(),
+                forall|x: (bool, IpBlock)| #[trigger] push_allowed(&self.addrs, x) <==> addr_rejectable(cert, x),
+                forall|x: IpBlock| #![trigger it.seq().contains(x)] #![trigger cert.cert_spec().v4_spec().blocks_spec().contains(x)]
+                    it.seq().contains(x)
+                    <==> (cert.cert_spec().v4_spec().blocks_spec().contains(x) && !x.is_slash_zero_spec()),
+                forall|j: int| 0 <= j < it.index@ ==> pushed(&self.addrs, (true, #[trigger] it.seq()[j])),
+            ensures
+                forall|x: IpBlock| cert.cert_spec().v4_spec().blocks_spec().contains(x) && !x.is_slash_zero_spec()
+                    ==> #[trigger] pushed(&self.addrs, (true, x)),
+//@ loopentry 1
+            assert(it.seq().contains(block));
+//@ loopvar 2 it2
+//@ loop 2
+            invariant
+                it2.iter.obeys_prophetic_iter_laws(),
+                forall|x: (bool, IpBlock)| #[trigger] push_allowed(&self.addrs, x) <==> addr_rejectable(cert, x),
+                forall|x: IpBlock| #![trigger it2.seq().contains(x)] #![trigger cert.cert_spec().v6_spec().blocks_spec().contains(x)]
+                    it2.seq().contains(x)
+                    <==> (cert.cert_spec().v6_spec().blocks_spec().contains(x) && !x.is_slash_zero_spec()),
+                forall|j: int| 0 <= j < it2.index@ ==> pushed(&self.addrs, (false, #[trigger] it2.seq()[j])),
+                forall|x: IpBlock| cert.cert_spec().v4_spec().blocks_spec().contains(x) && !x.is_slash_zero_spec()
+                    ==> #[trigger] pushed(&self.addrs, (true, x)),
+            ensures
+                forall|x: IpBlock| cert.cert_spec().v6_spec().blocks_spec().contains(x) && !x.is_slash_zero_spec()
+                    ==> #[trigger] pushed(&self.addrs, (false, x)),
+//@ loopentry 2
+            assert(it2.seq().contains(block));
+//@ loopvar 3 it3
+//@ loop 3
+            invariant
+                it3.iter.obeys_prophetic_iter_laws(),
+                forall|b: AsBlock| #[trigger] push_allowed(&self.asns, b) <==> as_rejectable(cert, b),
+                forall|x: AsBlock| #![trigger it3.seq().contains(x)] #![trigger cert.cert_spec().asres_spec().as_blocks_spec().contains(x)]
+                    it3.seq().contains(x)
+                    <==> (cert.cert_spec().asres_spec().as_blocks_spec().contains(x) && !x.is_whole_range_spec()),
+                forall|j: int| 0 <= j < it3.index@ ==> pushed(&self.asns, #[trigger] it3.seq()[j]),
+                forall|x: IpBlock| cert.cert_spec().v4_spec().blocks_spec().contains(x) && !x.is_slash_zero_spec()
+                    ==> #[trigger] pushed(&self.addrs, (true, x)),
+                forall|x: IpBlock| cert.cert_spec().v6_spec().blocks_spec().contains(x) && !x.is_slash_zero_spec()
+                    ==> #[trigger] pushed(&self.addrs, (false, x)),
+            ensures
+                forall|x: AsBlock| cert.cert_spec().asres_spec().as_blocks_spec().contains(x) && !x.is_whole_range_spec()
+                    ==> #[trigger] pushed(&self.asns, x),
+//@ loopentry 3
+            assert(it3.seq().contains(block));
+//@ fn RejectedResourcesBuilder::finalize
+//@ spec
+    ensures
+        // C08: family separation and nothing invented: every address of the IPv4
+        // (IPv6) rejected set lies in a block that was recorded with the IPv4 (IPv6) tag
+        forall|a: u128| res.v4.addrs_spec().contains(a) ==> covered_by_pushed(&self.addrs, true, a),
+        forall|a: u128| res.v6.addrs_spec().contains(a) ==> covered_by_pushed(&self.addrs, false, a),
+//@ loop 1
+            invariant
+                forall|a: u128| v4.addrs_spec().contains(a) ==> covered_by_pushed(&self.addrs, true, a),
+                forall|a: u128| v6.addrs_spec().contains(a) ==> covered_by_pushed(&self.addrs, false, a),
+//@ fn SnapshotBuilder::new
+//@ spec
+    ensures
+        // C09: the composition starts from the empty set
+        res.origins@ == Map::<RouteOrigin, PayloadInfo>::empty(),
+        res.router_keys@ == Map::<RouterKey, PayloadInfo>::empty(),
+        res.aspas@ == Map::<Asn, (SmallAsnSet, PayloadInfo)>::empty(),
+        res.rejected == rejected, res.unsafe_vrps == unsafe_vrps, res.exceptions == exceptions,
+        !res.unsafe_vrps_present, res.refresh is None,
+//@ entry
+        broadcast use vstd::std_specs::hash::group_hash_axioms, axiom_route_origin_key_model, axiom_router_key_key_model, axiom_asn_key_model;
 //@ global
 // C08: a VRP is unsafe iff its prefix shares an address with the rejected
 // resources (of its own family)
@@ -444,4 +532,90 @@ spec fn roa_kept(s: Seq<RouteOrigin>, n: int, limit_v4_len: Option<u8>, limit_v6
         roa_kept(s, n - 1, limit_v4_len, limit_v6_len, info).push(PubRouteOrigin { origin: s[n - 1], info })
     }
     else { roa_kept(s, n - 1, limit_v4_len, limit_v6_len, info) }
+}
+
+// C08: the (family, block) pairs a rejected CA contributes to the rejected
+// resources: its IPv4 / IPv6 blocks other than whole-address-family blocks
+spec fn addr_rejectable(cert: &CaCert, x: (bool, IpBlock)) -> bool {
+    !x.1.is_slash_zero_spec() && (
+        if x.0 { cert.cert_spec().v4_spec().blocks_spec().contains(x.1) }
+        else { cert.cert_spec().v6_spec().blocks_spec().contains(x.1) })
+}
+
+spec fn as_rejectable(cert: &CaCert, b: AsBlock) -> bool {
+    !b.is_whole_range_spec() && cert.cert_spec().asres_spec().as_blocks_spec().contains(b)
+}
+
+// address a lies in some block recorded in queue q under family tag `fam`
+spec fn covered_by_pushed(q: &SegQueue<(bool, IpBlock)>, fam: bool, a: u128) -> bool {
+    exists|b: IpBlock| #[trigger] pushed(q, (fam, b)) && b.addrs_spec().contains(a)
+}
+
+// ---- what the recursive definitions mean (machine-checked lemmas) ----
+
+// C09: origins_added is the old origin set plus exactly the admitted published origins
+proof fn lemma_origins_added_contains(b: &SnapshotBuilder, s: Seq<PubRouteOrigin>, n: int, o: RouteOrigin)
+    requires 0 <= n <= s.len()
+    ensures origins_added(b, s, n).contains(o)
+        <==> (b.origins@.dom().contains(o) || exists|i: int| 0 <= i < n && (#[trigger] s[i]).origin == o && admits_origin(b, o))
+    decreases n
+{
+    if n > 0 {
+        lemma_origins_added_contains(b, s, n - 1, o);
+    }
+}
+
+// C08: with 'reject', if no origin collected so far overlaps the rejected resources,
+// none does after processing any list of published origins
+proof fn lemma_c08_reject_no_unsafe(b: &SnapshotBuilder, s: Seq<PubRouteOrigin>, n: int)
+    requires
+        0 <= n <= s.len(),
+        b.unsafe_vrps is Reject,
+        forall|o: RouteOrigin| b.origins@.dom().contains(o) ==> !is_unsafe(&b.rejected, o),
+    ensures
+        forall|o: RouteOrigin| origins_added(b, s, n).contains(o) ==> !is_unsafe(&b.rejected, o),
+    decreases n
+{
+    if n > 0 {
+        lemma_c08_reject_no_unsafe(b, s, n - 1);
+    }
+}
+
+// C08: with 'warn' or 'accept' the unsafe-VRP filter removes nothing: the result is
+// the same as if only the SLURM filters were applied
+proof fn lemma_c08_warn_accept_removes_nothing(b: &SnapshotBuilder, s: Seq<PubRouteOrigin>, n: int, o: RouteOrigin)
+    requires 0 <= n <= s.len(), !(b.unsafe_vrps is Reject),
+    ensures origins_added(b, s, n).contains(o)
+        <==> (b.origins@.dom().contains(o)
+              || exists|i: int| 0 <= i < n && (#[trigger] s[i]).origin == o && !b.exceptions.drop_origin_spec(o))
+    decreases n
+{
+    if n > 0 {
+        lemma_c08_warn_accept_removes_nothing(b, s, n - 1, o);
+    }
+}
+
+// C09: add_keys is the old key set plus exactly the asserted keys
+proof fn lemma_add_keys_contains<K, V>(base: Set<K>, s: Seq<(K, V)>, n: int, k: K)
+    requires 0 <= n <= s.len()
+    ensures add_keys(base, s, n).contains(k) <==> (base.contains(k) || exists|i: int| 0 <= i < n && (#[trigger] s[i]).0 == k)
+    decreases n
+{
+    if n > 0 {
+        lemma_add_keys_contains(base, s, n - 1, k);
+    }
+}
+
+// C09: keys_added is the old key set plus, for each ASN of the certificate, its key unless SLURM drops it
+proof fn lemma_keys_added_contains(base: Set<RouterKey>, key: &PubRouterKey, exceptions: &LocalExceptions, n: int, k: RouterKey)
+    requires 0 <= n <= key.asns.asns_spec().len()
+    ensures keys_added(base, key, exceptions, n).contains(k)
+        <==> (base.contains(k) || (exists|i: int| 0 <= i < n
+                && k == (RouterKey { key_identifier: key.key_id, asn: #[trigger] key.asns.asns_spec()[i], key_info: key.key_info })
+                && !exceptions.drop_router_key_spec(&k)))
+    decreases n
+{
+    if n > 0 {
+        lemma_keys_added_contains(base, key, exceptions, n - 1, k);
+    }
 }
